@@ -61,12 +61,37 @@ func TestC20(t *testing.T) {
 	rec := vk.New("C20", "roundtrip")
 	defer rec.Finish(t)
 	nk := vk.N(30000, 3000000)
-	rec.Rule(fmt.Sprintf("per licence version 1-3 (fresh licences per shard): New().String() -> Parse (contract, signature, master index, and cipher equality shown by cross-decryption); %d random and boundary 24-byte keys per version through EncryptKey/DecryptKey (32 URL-safe characters, round trip, all ciphertexts in a set, pairs differing in one bit); "+
+	rec.Rule(fmt.Sprintf("per licence version 1-3 (fresh licences per shard, plus v2/v3 licences of every master index 0..255 x five contract/signature magnitudes): String() -> Parse (contract, signature, master index, and cipher equality shown by cross-decryption); %d random and boundary 24-byte keys per version through EncryptKey/DecryptKey (32 URL-safe characters, round trip, all ciphertexts in a set, pairs differing in one bit); "+
 		"candidate key strings of every length 0..40 over valid and invalid alphabets must be rejected unless they are 32 valid characters; licence strings (random, every truncation and byte mutation of valid v1/v2/v3 licences, every suffix :1 :2 :3) must yield a licence or an error, never a panic; "+
 		"non-trivial = every case; distinct = (version, input)", nk))
 	shard, _ := vk.Shard()
 	r := vk.NewRand(vk.Seed(), "C20", shard)
 	caseNo := 0
+	// licences of every master index and several contract/signature magnitudes (v2, v3)
+	for v := 2; v <= 3; v++ {
+		for idx := 0; idx < 256; idx++ {
+			for _, mag := range []uint32{0, 0x7f, 0x3fff, 0x1fffff, 0xffffffff} {
+				caseNo++
+				if !vk.Mine(caseNo) {
+					continue
+				}
+				user, sign := mag&r.U32()|mag>>1+1, mag&r.U32()|mag>>3
+				var lic license.License
+				if v == 2 {
+					lic = &license.V2{EncryptionKey: r.Bytes(32), EncryptionSalt: r.Bytes(24), User: user, Sign: sign, Index: uint32(idx)}
+				} else {
+					lic = &license.V3{EncryptionKey: r.Bytes(32), EncryptionSalt: r.Bytes(16), User: user, Sign: sign, Index: uint32(idx)}
+				}
+				s := lic.String()
+				back, err, pan := parse(s)
+				rec.Case(vk.Hash("licidx", v, idx, mag, s), true)
+				rec.Inc("licences_by_index_round_tripped")
+				if pan != "" || err != nil || back == nil || back.Contract() != lic.Contract() || back.Signature() != lic.Signature() || back.Master() != lic.Master() || back.String() != s {
+					rec.Violation(caseNo, fmt.Sprintf("licence-roundtrip/v%d", v), fmt.Sprintf("licence with master index %d contract %#x signature %#x: Parse(String()) = err %v panic %q", idx, user, sign, err, pan), map[string]interface{}{"licence": s, "index": idx})
+				}
+			}
+		}
+	}
 	for v := 1; v <= 3; v++ {
 		for li := 0; li < vk.N(2, 6); li++ {
 			lic := newLic(v)
